@@ -5,6 +5,7 @@
 //! per specification action; TLC decides (trace validation) whether the trace is
 //! a behaviour of the specification.  The harness itself never judges.
 
+mod agg_drv;
 mod core_drv;
 mod persist_drv;
 mod sock_drv;
@@ -20,6 +21,7 @@ fn main() {
     std::panic::set_hook(Box::new(|_| {}));
     let code = match args[1].as_str() {
         "core-run" => core_drv::main_run(&args[2..]),
+        "agg-run" => agg_drv::main_run(&args[2..]),
         "persist-run" => persist_drv::main_run(&args[2..]),
         "sock-run" => sock_drv::main_run(&args[2..]),
         other => {
